@@ -24,10 +24,21 @@ def build_obs(tier, tables=None):
               ("decpos+6", '+', 6), ("dec16+3", '9223372036854775', 3), ("dec17+2", '92233720368547758', 2), ("oct22", '0', 22), ("bin6", '0b', 6)]
     if tier != "quick":
         shaped += [("dec19", '', 19), ("decneg19", '-', 19), ("oct23", '0', 23), ("bin64", '0b', 64), ("bin63", '0b', 63)]
+    # 19/20 fully symbolic decimal digits: MiniSat does not finish in 900 s, kissat needs ~40 s
+    kis = [("dec19", '', 19), ("decneg19", '-', 19)]
+    shaped = [x for x in shaped if x[0] not in ("dec19", "decneg19")]
+    if tier != "quick":
+        kis += [("dec20", '', 20), ("decneg20", '-', 20)]
+        shaped = [x for x in shaped if x[0] not in ("dec20", "decneg20")]
     for name, pre, nd in shaped:
         obs.append(Ob("int-boundary-" + name, "c04_conv.c",
                       ["-DMODE=6", '-DPREFIX="%s"' % pre, "-DNDIG=%d" % nd], unwind=len(pre) + nd + 4,
                       family="c04", need_witness=True))
+    for name, pre, nd in kis:
+        obs.append(Ob("int-boundary-" + name, "c04_conv.c",
+                      ["-DMODE=6", '-DPREFIX="%s"' % pre, "-DNDIG=%d" % nd], unwind=len(pre) + nd + 4,
+                      family="c04", need_witness=True, flags=["--external-sat-solver", "kissat"], timeout=600 if tier == "quick" else 1500,
+                      params={"sat_back_end": "kissat"}))
     return obs
 
 
